@@ -24,11 +24,32 @@ phase `close` (no hooks: a second goroutine while the first call on the public o
                act: Close / SetReadDeadline(past) / SetDeadline(past) / SetWriteDeadline(past) then Close
   observed : `act=ok|hang call=err|timeout|ok|hang|panic`  (`early=<r>`: the first call returned
                before the second goroutine acted; `parked=no`: it never reached the transport)
+phase `listen` (ONE listener, one accept loop `for { c := Accept(); go serve(c) }`, several peers over blocking
+               in-memory transports; time in ticks: the driver performs the peers' acts of a tick and goes on only
+               when every goroutine of the server and of the real clients is parked)
+  case     : `ph=listen cfg=.. mode=D|R rb=<n> seg=<n> peers=<P>|<P>|..`
+               P = `<gap>/<act>,<act>,..|-`  the connection is established <gap> ticks after the previous peer's
+                     (accept queue = list order); act = `<gap>D<hex>` send a chunk, `<gap>X` go away, each <gap>
+                     ticks after the previous act
+                 | `<gap>/C<tlcp|tls>[:<k>:<g>]`  a REAL client (handshake + echo); with `:k:g` the first k bytes of
+                     its first record go out when it connects and the rest g ticks later
+               mode D: serve(c) = detect through the hook, then, when a stack serves the connection, reads of
+                     `ProtocolDetectConn.Read` with rb-byte buffers until the end; mode R: no hooks, serve(c) = an
+                     echo loop on the public object; seg = most bytes one transport read returns (0: no limit)
+  observed : `conns=<O>|<O>|..` per peer `<acc>/<dec>/<got>`: acc = tick at which Accept returned the connection,
+               dec = `<tick>:<r>` tick and answer of the first call | `~<stack|none>` (mode R, scripted peer whose
+               first call did not come back with an adapter error: the stack installed in the end, no tick: when
+               that call returns is the stack's business), got = bytes the stack read (mode D) | ok|fail outcome of
+               the real client's handshake + echo; `-` = never / nothing.  `wd=<tick>`: the world did not come to
+               rest within the watchdog after that tick (the driver stops there; the connections are judged on
+               what was due to them by then).
+every phase: `accept=hang` = the listener's Accept did not return within the watchdog.
 -/
 import Gotlcp.Oracle.Common
 import Gotlcp.Model.PAFacts
 import Gotlcp.Model.PALock
 import Gotlcp.Spec.PASpec
+import Gotlcp.Spec.PAListenSpec
 
 namespace Gotlcp.Oracle.C20
 open Gotlcp.Model.PA
@@ -247,13 +268,214 @@ def judgeE2E (ct : List String) (o : String) : Option Verdict := do
     else some ("e2e", s!"a {cl} client through the adapter{if slow then " (first record delivered in two pieces around an expired read deadline)" else ""}: expected {wantLine}")
   pure { model := model, spec := spec }
 
+/-! ### phase `listen` -/
+
+/-- one parsed peer: model side (gaps) and, for real clients, the protocol -/
+structure LPeer where
+  peer : Peer
+  real : Option String := none
+
+def realHeader (mj : UInt8) : Bytes := [0x16, mj, 0x01, 0x00, 0x06, 0x01, 0x00, 0x00, 0x02, 0x01, 0x01]
+
+def parseAct (s : String) : Option (Nat × PAct) :=
+  let cs := s.toList
+  let ds := cs.takeWhile Char.isDigit
+  let rest := cs.dropWhile Char.isDigit
+  match (String.ofList ds).toNat?, rest with
+  | some g, ['X'] => some (g, .close)
+  | some g, 'D' :: h => if h.isEmpty then some (g, .send []) else (Hex.decodeChars h).map fun b => (g, .send b)
+  | _, _ => none
+
+def parsePeer (s : String) : Option LPeer :=
+  match s.splitOn "/" with
+  | [a, body] =>
+    match a.toNat? with
+    | none => none
+    | some arr =>
+      if body.startsWith "C" then
+        match (String.ofList (body.toList.drop 1)).splitOn ":" with
+        | [cl] => (clientMajor cl).map fun mj => { peer := ⟨arr, [(0, .send (realHeader mj))]⟩, real := some cl }
+        | [cl, k, g] =>
+          match clientMajor cl, k.toNat?, g.toNat? with
+          | some mj, some k, some g =>
+            some { peer := ⟨arr, [(0, .send ((realHeader mj).take k)), (g, .send ((realHeader mj).drop k))]⟩, real := some cl }
+          | _, _, _ => none
+        | _ => none
+      else if body == "-" then some { peer := ⟨arr, []⟩ }
+      else ((body.splitOn ",").mapM parseAct).map fun acts => { peer := ⟨arr, acts⟩ }
+  | _ => none
+
+def parsePeers (s : String) : Option (List LPeer) :=
+  if s == "-" then some [] else (s.splitOn "|").mapM parsePeer
+
+def showOptNat : Option Nat → String
+  | none => "-"
+  | some n => toString n
+
+def hexOr (b : Bytes) : String := if b.isEmpty then "-" else Hex.encode b
+
+/-- the model's outcome of one connection in the observation syntax -/
+def showOutcome (mode : String) (lp : LPeer) (o : Outcome) : String :=
+  match o.acc with
+  | none => "-/-/-"
+  | some a =>
+    match lp.real with
+    | some _ =>
+      match o.dec with
+      | none => s!"{a}/-/fail"
+      | some (t, r) => s!"{a}/{t}:{showRoute r}/{if r.served then "ok" else "fail"}"
+    | none =>
+      if mode == "R" then
+        match o.dec with
+        | none => s!"{a}/~none/-"
+        | some (t, r) => if r.served then s!"{a}/~{showRoute r}/-" else s!"{a}/{t}:{showRoute r}/-"
+      else
+        match o.dec with
+        | none => s!"{a}/-/-"
+        | some (t, r) => s!"{a}/{t}:{showRoute r}/{hexOr o.got}"
+
+/-- spec side: the peer's own timeline in absolute ticks (computed here, not by the model) -/
+def lineOf (arrive : Nat) (acts : List (Nat × PAct)) : Spec.PA.Line :=
+  let rec go (t : Nat) : List (Nat × PAct) → List (Nat × Option Bytes)
+    | [] => []
+    | (g, .send c) :: r => (t + g, some c) :: go (t + g) r
+    | (g, .close) :: r => (t + g, none) :: go (t + g) r
+  { arrive := arrive, evs := go arrive acts }
+
+def linesOf : Nat → List LPeer → List Spec.PA.Line
+  | _, [] => []
+  | t0, lp :: r => lineOf (t0 + lp.peer.arrive) lp.peer.acts :: linesOf (t0 + lp.peer.arrive) r
+
+inductive ODec where
+  | none | timed (t : Nat) (r : String) | fin (r : String)
+
+def parseODec (s : String) : Option ODec :=
+  if s == "-" then some .none
+  else if s.startsWith "~" then some (.fin (String.ofList (s.toList.drop 1)))
+  else match s.splitOn ":" with
+    | [t, r] => t.toNat?.map fun t => .timed t r
+    | _ => Option.none
+
+/-- the property on one connection: what is due to it is a function of its own timeline only -/
+def specConn (cfg : Cfg) (mode : String) (i : Nat) (lp : LPeer) (l : Spec.PA.Line) (obs : String) :
+    Option (String × String) :=
+  match obs.splitOn "/" with
+  | [accS, decS, gotS] =>
+    match parseODec decS with
+    | Option.none => some ("shape", s!"connection {i}: unparseable {decS}")
+    | some dec =>
+      let sent := Spec.PA.sentOf l.evs
+      let who := s!"connection {i} (connected at tick {l.arrive}, sent {Hex.encode sent})"
+      let never := if accS == "-" then " — Accept never returned it" else s!" — Accept returned it at tick {accS}"
+      let streamCheck : Option (String × String) :=
+        -- mode D: bytes the serving stack read
+        if mode == "D" && lp.real.isNone then
+          match (if gotS == "-" then some [] else Hex.decode gotS) with
+          | Option.none => some ("shape", s!"connection {i}: unparseable bytes")
+          | some got =>
+            if !Spec.PA.isPrefix got sent then
+              some ("stream", s!"{who}: the serving stack read {Hex.encode got}, which is not the start of this peer's stream")
+            else none
+        else none
+      match Spec.PA.due cfg.tlcp cfg.tls l with
+      | .routed t v =>
+        let wantS := showVerdict v
+        let fullCheck : Option (String × String) :=
+          if lp.real.isSome then
+            (if (gotS == "ok") == v.served then none
+             else some ("e2e", s!"{who}: a real {lp.real.getD ""} client; handshake and echo answered {gotS}, {wantS} is due"))
+          else if mode == "D" && v.served then
+            match (if gotS == "-" then some [] else Hex.decode gotS) with
+            | some got => if got == sent then none
+                else some ("stream", s!"{who}: served by {wantS}, but the stack had read only {Hex.encode got} when the world came to rest")
+            | Option.none => some ("shape", "unparseable bytes")
+          else none
+        match dec with
+        | .none =>
+          some ("starved", s!"{who} had sent its complete first record header by tick {t} and is due {wantS}, but the first call on it has not answered when the world came to rest{never}: it waits for ANOTHER peer")
+        | .timed t' r =>
+          if r == "panic" then some ("panic", s!"{who}: the first call panicked")
+          else if r == wantS then
+            if t' ≤ t then (match streamCheck with | some f => some f | Option.none => fullCheck)
+            else some ("starved", s!"{who} had sent its complete first record header by tick {t} but was answered ({r}) only at tick {t'}{never}: it waited for ANOTHER peer")
+          else if isRouting r then
+            some ("misroute", s!"{who}: answered {r}, its own first record (major version {Hex.encode (sent.drop 1 |>.take 1)}) calls for {wantS}")
+          else some ("spurious-error", s!"{who}: the first call failed with {r} although the peer sent a full header ({wantS} is due)")
+        | .fin r =>
+          if r == wantS then fullCheck
+          else if r == "none" then
+            some ("starved", s!"{who} had sent its complete first record header by tick {t} and is due {wantS}, but no stack serves it when the world came to rest{never}")
+          else some ("misroute", s!"{who}: served by {r}, its own first record calls for {wantS}")
+      | .error t =>
+        match dec with
+        | .none =>
+          some ("hang", s!"{who} went away at tick {t} before five bytes: an error is due, but the first call on it has not returned when the world came to rest{never}")
+        | .timed t' r =>
+          if r == "panic" then some ("panic", s!"{who}: the first call panicked")
+          else if isRouting r then some ("misroute", s!"{who} went away before five bytes but was answered {r}")
+          else if t' ≤ t then streamCheck
+          else some ("hang", s!"{who} went away at tick {t} before five bytes, its error ({r}) came only at tick {t'}{never}: it waited for ANOTHER peer")
+        | .fin r =>
+          if r == "none" then some ("hang", s!"{who} went away at tick {t} before five bytes: an error is due, but the first call never returned one")
+          else some ("misroute", s!"{who} went away before five bytes but is served by {r}")
+      | .nothing =>
+        match dec with
+        | .timed _ r =>
+          if r == "panic" then some ("panic", s!"{who}: the first call panicked")
+          else if isRouting r then some ("misroute", s!"{who} has not sent five bytes but was answered {r}")
+          else streamCheck
+        | .fin r => if r == "none" then none else some ("misroute", s!"{who} has not sent five bytes but is served by {r}")
+        | .none => streamCheck
+  | _ => some ("shape", s!"connection {i}: expected acc/dec/got")
+
+def judgeListen (ct : List String) (o : String) : Option Verdict := do
+  let cfg ← (kv ct "cfg").bind parseCfg
+  let mode ← kv ct "mode"
+  let rb ← kvNat ct "rb"
+  let lps ← (kv ct "peers").bind parsePeers
+  let outs := listen factsP cfg factsAcceptPeeks rb (lps.map (·.peer))
+  let shown := (lps.zip outs).map fun (lp, oc) => showOutcome mode lp oc
+  let model := "conns=" ++ (if shown.isEmpty then "-" else "|".intercalate shown)
+  let ot := tokens o
+  let lines := linesOf 0 lps
+  let spec : Option (String × String) :=
+    match kv ot "conns" with
+    | some cs =>
+      -- `wd=<T>`: the driver stopped after tick T because the world did not come to rest (a goroutine blocked
+      -- outside the instrumented transports); that alone is a disagreement with the model, not a verdict: the
+      -- connections are judged on what was due to them by tick T
+      let upTo := kvNat ot "wd"
+      let obs := if cs == "-" then [] else cs.splitOn "|"
+      if obs.length != lps.length then some ("shape", "one observation per peer expected")
+      else
+        let rec go (i : Nat) : List LPeer → List Spec.PA.Line → List String → Option (String × String)
+          | lp :: lr, l :: llr, ob :: obr =>
+            let later : Bool := match upTo, Spec.PA.due cfg.tlcp cfg.tls l with
+              | some T, .routed t _ => decide (T < t)
+              | some T, .error t => decide (T < t)
+              | some T, .nothing => decide (T < l.arrive)
+              | Option.none, _ => false
+            match (if later then Option.none else specConn cfg mode i lp l ob) with
+            | some f => some f
+            | Option.none => go (i + 1) lr llr obr
+          | _, _, _ => Option.none
+        go 0 lps lines obs
+    | Option.none => some ("shape", "missing conns")
+  pure { model := model, spec := spec, trivial := lps.length < 2 }
+
 def judge (c o : String) : Option Verdict := do
   let ct := tokens c
   let ph ← kv ct "ph"
-  if ph == "route" then judgeRoute ct o
-  else if ph == "e2e" then judgeE2E ct o
-  else if ph == "pub" then judgePub ct o
-  else if ph == "close" then judgeClose ct o
-  else none
+  let v ← (if ph == "route" then judgeRoute ct o
+    else if ph == "e2e" then judgeE2E ct o
+    else if ph == "pub" then judgePub ct o
+    else if ph == "close" then judgeClose ct o
+    else if ph == "listen" then judgeListen ct o
+    else none)
+  -- whatever the phase: an Accept of the listener that does not return (the driver had a connection waiting in
+  -- the inner listener) keeps the application from ever seeing the connection
+  if kv (tokens o) "accept" == some "hang" then
+    pure { v with spec := some ("hang", "the listener's Accept did not return although a connection was waiting in the inner listener: the application never gets the connection (nothing to read from, to put a deadline on or to close)") }
+  else pure v
 
 end Gotlcp.Oracle.C20
